@@ -188,7 +188,7 @@ def classify(unit, rs, meta, out, diags):
     return failures, tool_errors
 
 
-def vacuity_check(unit, rs_vac, meta_vac, out, diags):
+def vacuity_check(unit, rs_vac, meta_vac, out, diags, prefixes=None):
     """every VAC assert(false) must FAIL; returns list of vac ids that verified (vacuous contexts)"""
     vr = out.get("verification-results", {})
     if vr.get("encountered-vir-error") or (vr.get("encountered-error") and not vr.get("errors")):
@@ -201,8 +201,10 @@ def vacuity_check(unit, rs_vac, meta_vac, out, diags):
             for t in sp.get("text", []):
                 for m in re.finditer(r"/\*VAC:(.*?)\*/", t["text"]):
                     seen.add(m.group(1))
-    missing = [v for v in meta_vac["vac_ids"] if v not in seen]
-    return missing, len(meta_vac["vac_ids"])
+    ids = [v for v in meta_vac["vac_ids"]
+           if not prefixes or any(meta_vac.get("vac_files", {}).get(v, "").startswith(px) for px in prefixes)]
+    missing = [v for v in ids if v not in seen]
+    return missing, len(ids)
 
 
 def assumption_scan(rs):
@@ -237,7 +239,7 @@ def unsafe_scan():
     return hits
 
 
-def run_unit(unit, verify_args, tier, seed):
+def run_unit(unit, verify_args, tier, seed, prefixes=None):
     """-> dict with failures/tool_errors/vacuity/assumptions/timing"""
     res = {"unit": unit, "failures": [], "tool_errors": [], "trusted": [], "rewrites": [], "functions": [],
            "notdecided": [], "bounded": []}
@@ -283,7 +285,7 @@ def run_unit(unit, verify_args, tier, seed):
     res["smt_ms"] = out.get("times-ms", {}).get("smt", {}).get("smt-run", 0)
     try:
         if not terrs:
-            missing, nvac = vacuity_check(unit, rs_vac, meta_vac, outv, diagsv)
+            missing, nvac = vacuity_check(unit, rs_vac, meta_vac, outv, diagsv, prefixes)
             res["vacuity"] = {"probes": nvac, "vacuous": missing}
             if missing:
                 res["tool_errors"].append("vacuity: these contexts verified `assert(false)` (unsatisfiable precondition/invariant): " + ", ".join(missing))
